@@ -21,6 +21,15 @@ PROPS = {
              "cross product (expires_in present, access-token forwarding, refresh none/static/rotate, aud array, extra members, memory/Redis) with the rest drawn from the seed; "
              "non-trivial = the login completed; distinct = distinct (configuration shape, provider shape, history length)",
              {"runs": 6000, "budget_s": 25}, {"runs": 400000, "budget_s": 600}, must={"all": ["login-completed", "further-requests-ok"]}),
+    "C09": P("plans = set-up (fresh / expired-refreshable / mid-login session) + a logout task interleaved with 1-2 concurrent checks on the same cookie by the seeded scheduler at "
+             "store-call and token-endpoint granularity (uniform and priority policies, IdP latency drawn per plan) + later sequential requests; plus sequential histories with logouts "
+             "and logouts whose session removal fails; non-trivial = a logout was answered and at least one check with that cookie returned after it; distinct = canonical event trace + schedule trace",
+             {"runs": 12000, "budget_s": 30}, {"runs": 1500000, "budget_s": 900, "selftest_runs": 200},
+             must={"all": ["refresh_in_flight_at_logout", "callback_in_flight_at_logout", "logout_first", "logout_last", "store-err-before", "store-err-after"]}),
+    "C06": P("plans = (request instant at ns granularity, attacker window, hidden offset, k); modes: replay divergence (same plan, same simulated clock, two fresh processes-worth of state), "
+             "k logins at one frozen instant, redirect for a presented id, time-window attacker trying every candidate instant in +-w ns with a fresh replica per candidate; "
+             "non-trivial = identifiers were produced and compared; distinct = (mode, instant, window, offset, k). evaluations counts plans; probes count candidate logins",
+             {"runs": 1200, "budget_s": 25}, {"runs": 200000, "budget_s": 600}, must={"all": ["replayed-logins", "same-instant-logins", "time-window-candidates"]}),
 }
 
 
